@@ -331,11 +331,10 @@ def h_iter_never_fails(prop, case, facts, kind="dfa", n=2, ov=False, timeout=900
     body = _body(case, kind, "t::iter_never_fails::<%s, _, %d, %s>(&a)" % (case.mod, n, "true" if ov else "false"))
     meta = dict(template="iter_never_fails", kind=kind, N=n, K=2, iterator="overlapping" if ov else "non-overlapping",
                 symbolic=["haystack bytes", "requested anchoring"])
-    unsat = set()
-    if ov and (case.mk != "std"):
-        unsat.add("a constructed iterator is stepped")
-    if (not ov) and case.sk != "both" and False:
-        pass
+    # the witness of the other (statically eliminated) branch is unreachable by construction
+    unsat = {"a constructed non-overlapping iterator is stepped"} if ov else {"a constructed overlapping iterator is stepped"}
+    if ov and (case.mk != "std" or case.sk == "an"):
+        unsat.add("a constructed overlapping iterator is stepped")
     return Harness(name, case, body, base_unwind(case, facts, n), [("hay", ("bytes", n)), ("anchored", "bool")], meta,
                    timeout=timeout, functions=F_ITER + F_OV + F_SEARCH + F_KIND[kind] + ["FindOverlappingIter::next"], unsat_ok=unsat)
 
@@ -908,10 +907,11 @@ def schedule(prop, tier, seed):
             hs = []
             for c in cases:
                 kinds = ["dfa", "cnfa", "nnfa"]
-                if quick and c.name not in ("c13std_un", "c13lf_an"):
+                if quick and c.name not in ("c13std_un",):
                     kinds = ["dfa"]
-                hs.append(h_iter_never_fails(prop, c, facts, "dfa", ov=False))
-                if c.mk == "std":
+                if not quick or c.name in ("c13std_un", "c13lf_both", "c13lf_both_empty", "c13std_an"):
+                    hs.append(h_iter_never_fails(prop, c, facts, "dfa", ov=False))
+                if c.mk == "std" and (not quick or c.name in ("c13std_un", "c13std_both")):
                     hs.append(h_iter_never_fails(prop, c, facts, "dfa", ov=True))
                 for kind in kinds:
                     full = kind == "dfa" or not quick
